@@ -63,6 +63,15 @@ reg("C16", "Hypothesis -> gensquashfs --pack-dir -> rdsquashfs -d/-u -> gensquas
     "device numbers and contents.", "Trusts lib/sqfsimg.py; newline is excluded as the statement says; hard-link groups and time stamps are not compared.",
     "DESIGN.md 4/C16")
 
+reg("C17", "Hypothesis -> gensquashfs -S (asan) -> layout decoded by the independent parser", "exploration",
+    "reference model of pack order and per-file flags compared with the on-disk layout decoded by an independent parser",
+    "Generated trees (unique-content files of every size class, zero blocks, compressible data, twins) and sort files (ties, negatives, literal/"
+    "glob/glob_no_path, quoted names with escapes, overlaps, every flag subset, comments, no-match lines) with -T/-e/-j/-B: a reference model "
+    "computes pack order and effective flags; from the parsed image data offsets and fragment positions must be monotone in pack order, each "
+    "flag must have exactly its documented effect and unlisted files none, the tree must read back unchanged and the invariants hold.",
+    "Trusts lib/sqfsimg.py, the model in checks/c17.py (from gensquashfs.1) and its small fnmatch; twins are not judged for dont_compress "
+    "(dedup vs. directive precedence is undocumented); the 'align' flag is documented but unimplemented and left out.", "DESIGN.md 4/C17")
+
 NOT_YET = {}
 
 ALL = ["C%02d" % i for i in range(1, 20)]
